@@ -18,6 +18,25 @@ package dep
 //@   ensures a.Equal(b) == (a.Compare(b) == 0)
 //@   property C19
 
+// The same laws, stated with triggers, for callers that use Type.Compare by symbol.
+//@ lemma Type.Compare.laws
+//@   vars a, b Type
+//@   unfold Type.Compare
+//@   ensures -1 <= a.Compare(b) && a.Compare(b) <= 1 && a.Compare(b) == -b.Compare(a)
+//@   pattern a.Compare(b)
+//@   property C19
+//@   export
+
+//@ lemma Type.Compare.trans
+//@   vars a, b, c Type
+//@   unfold Type.Compare
+//@   ensures imp(a.Compare(b) <= 0 && b.Compare(c) <= 0, a.Compare(c) <= 0)
+//@   pattern a.Compare(b); b.Compare(c)
+//@   property C19
+//@   export
+
+//@ opaque Type.Compare
+
 //@ func (*Type).Clone
 //@   requires t != nil
 //@   ensures result.set.Mask == t.set.Mask && result.set.attrBits == t.set.attrBits && fresh(result.set.attrs)
